@@ -177,7 +177,7 @@ func (V *Verifier) verifyFunctions(fns []*ssa.Function, lemmas []*Lemma, opt sol
 	res.Structure = append(res.Structure, V.checkImmutables()...)
 	for _, fn := range fns {
 		key := funcKey(fn)
-		fc := V.C.Funcs[key]
+		fc := V.contractOfFn(fn) // an instance of a generic function: the generic function's contract
 		if fc == nil && !V.Sweep && !V.SweepSet[key] {
 			res.Structure = append(res.Structure, fmt.Sprintf("structure:%s: no contract found for function under verification", key))
 			continue
